@@ -252,8 +252,8 @@ PROPS = {
     "C01": {
         "level": "exploration",
         "jobs": {
-            "quick": [job("e2e", "e2e", "verif", "c01", 8, timeout=600)],
-            "thorough": [job("e2e", "e2e", "verif", "c01", 16, timeout=3000)],
+            "quick": [job("letgo", "mux", "verif", "c01b", 4), job("e2e", "e2e", "verif", "c01", 8, timeout=600)],
+            "thorough": [job("letgo", "mux", "verif", "c01b", 16), job("e2e", "e2e", "verif", "c01", 16, timeout=3000)],
         },
         "required_targets": {"any": ["conversations_completed", "udp_replies_checked", "half_close_then_opposite_direction", "close_refuse_abort_paths", "socks5_associations_with_two_targets"]},
         "assumptions": COMMON_ASSUMPTIONS + E2E_ASSUMPTIONS + [
